@@ -18,6 +18,18 @@ CHECKS = {
     },
 }
 
+CHECKS["C20"] = {
+    "pkg": "c20",
+    "level": "exploration",
+    "technique": "stateful property-based testing (rapid state machine) against an accounting reference model, plus a deterministic kind x budget grid run to exhaustion",
+    "level_text": "Random operation sequences (thousands per run, ~30-100 steps each incl. bursts that drive the 10-minute excluded cap) over a tree of real Backoffers with virtual sleeping; after every step all accounting getters are compared with an independent model and the budget / per-step / error-kind / cancel / kill clauses are asserted. A grid of every kind x 9 budgets x 2 weights x 4 per-call maxima is run to exhaustion deterministically. Sampling, not proof.",
+    "level_note": "Trusted: the failpoint fastBackoffBySkipSleep only skips the real sleep (it keeps the accounting path); the kind table (base/cap/jitter/error) in the harness is copied from the documented configuration.",
+    "tests": [
+        {"name": "TestBackoffModel", "quick": 3000, "thorough": 40000, "shards": 8},
+        {"name": "TestBudgetSweep", "quick": 1, "thorough": 1, "shards": 1},
+    ],
+}
+
 # properties without a registered check, with the reason (kept current by hand)
 NOT_CLAIMED = {}
 
